@@ -101,13 +101,17 @@ def hexVal (c : UInt8) : Option Nat :=
     anything else is copied. -/
 def decodeUnchecked : Bytes → Bytes
   | [] => []
-  | c :: rest@(h :: l :: rest') =>
-    if c == 0x25 then
-      match hexVal h, hexVal l with
-      | some x, some y => UInt8.ofNat (x * 16 + y) :: decodeUnchecked rest'
-      | _, _ => c :: decodeUnchecked rest
-    else c :: decodeUnchecked rest
-  | c :: rest => c :: decodeUnchecked rest
+  | c :: rest =>
+    match rest with
+    | h :: l :: rest' =>
+      if c == 0x25 then
+        match hexVal h, hexVal l with
+        | some x, some y => UInt8.ofNat (x * 16 + y) :: decodeUnchecked rest'
+        | _, _ => c :: decodeUnchecked (h :: l :: rest')
+      else c :: decodeUnchecked (h :: l :: rest')
+    | [x] => [c, x]      -- fewer than two bytes follow: `i+2 < lenMsg` fails for both
+    | [] => [c]
+termination_by structural l => l
 
 /-- The guard of `decodeGrpcMessage`: some `%` has at least two bytes after it. -/
 def hasEscape : Bytes → Bool
